@@ -170,10 +170,23 @@ def dead_reckoning_marg(chk, prog):
         chk.touch(f)
 
         def law(f=f, cls=cls, attrs=attrs, key=key, want=want):
-            it = Interp(prog)
+            # any correction arm the code might enter is followed in generic position: whatever it computes differs from the plain step
+            it = Interp(prog, oracle=lambda c, i: True if c.op in (">", ">=") else (False if c.op in ("<", "<=") else None))
             obj = it.make_obj(F + key.split("::")[0] + "::" + cls, Dt=P.sym("Dt_instance"), **attrs)
-            got = it.run(f, [q, w, zero3, m], {"dt": dt}, self_obj=obj)
-            return eq(got, want, "null-accelerometer MARG step")
+            try:
+                got = it.run(f, [q, w, zero3, m], {"dt": dt}, self_obj=obj)
+                return eq(got, want, "null-accelerometer MARG step")
+            except P.TooBig:
+                # a correction arm made the closed form explode: decide on a slice of the inputs that is still symbolic in the rate, the field and dt
+                q1 = np.array([P.ONE, P.ZERO, P.ZERO, P.ZERO], dtype=object)
+                w1 = np.array([P.ZERO, P.ZERO, w[2]], dtype=object)
+                it2 = Interp(prog, oracle=lambda c, i: True if c.op in (">", ">=") else (False if c.op in ("<", "<=") else None))
+                obj2 = it2.make_obj(F + key.split("::")[0] + "::" + cls, Dt=P.sym("Dt_instance"), **attrs)
+                from sa.symeval import unit_vec as _uv
+                got = it2.run(f, [q1, w1, zero3, _uv("um")], {"dt": dt}, self_obj=obj2)
+                sub = {"uqw": P.ONE, "uqx": P.ZERO, "uqy": P.ZERO, "uqz": P.ZERO, "w0": P.ZERO, "w1": P.ZERO}
+                want1 = np.array([x.subs(sub) for x in to_obj(want)], dtype=object)
+                return eq(got, want1, "null-accelerometer MARG step (q = 1, rate about z)")
         chk.ob("STEP.null-acc", F + key, "null accelerometer, valid magnetometer: the plain first-order gyro step (no magnetometer-only correction)", law,
                module=f.module.rel, function=f.qname, construct="null-accelerometer step (MARG)", line=f.node.lineno)
 
